@@ -188,6 +188,7 @@ func (c *SchemaCtx) IssueFromCoerce(err error) *ZogIssue {
 	e := ZogIssuePool.Get().(*ZogIssue)
 	e.Code = zconst.IssueCodeCoerce
 	e.Path = c.Path.String()
+	e.Params = nil // the issue is recycled: do not keep the params of whatever test it reported before
 	e.Message = ""
 	e.Dtype = c.DType
 	e.Value = c.Data
